@@ -95,8 +95,9 @@ func (c *Ctx) linFn(fn *ssa.Function) *lin.Fn {
 }
 
 type preCand struct {
-	param int
-	upper bool // param <= receiver's file length; else param >= 0
+	param  int
+	upper  bool // param <= receiver's file length; else param >= 0
+	strict bool // with upper: param < receiver's file length
 }
 
 // paramPreconds: for an unexported library function all of whose callers are static calls in the library, the
@@ -111,7 +112,9 @@ func (c *Ctx) paramPreconds(fn *ssa.Function) []lin.Cons {
 		var out []lin.Cons
 		for _, pc := range pcs {
 			p := fn.Params[pc.param]
-			if pc.upper {
+			if pc.upper && pc.strict {
+				out = append(out, lin.Gt(lin.Atom(c.lenAtom(fn.Params[0].Name())), lin.Atom(p.Name()), "proven at every call of "+fn.Name()+": "+p.Name()+" < File.len"))
+			} else if pc.upper {
 				out = append(out, lin.Ge(lin.Atom(c.lenAtom(fn.Params[0].Name())), lin.Atom(p.Name()), "proven at every call of "+fn.Name()+": "+p.Name()+" <= File.len"))
 			} else {
 				out = append(out, lin.Ge(lin.Atom(p.Name()), lin.Const(0), "proven at every call of "+fn.Name()+": "+p.Name()+" >= 0"))
@@ -151,9 +154,9 @@ func (c *Ctx) paramPreconds(fn *ssa.Function) []lin.Cons {
 			continue
 		}
 		if bt, ok := p.Type().Underlying().(*types.Basic); ok && bt.Info()&types.IsInteger != 0 && !ssax.NamedIs(p.Type(), "parsley", "Pos") {
-			cands = append(cands, preCand{i, false})
+			cands = append(cands, preCand{i, false, false})
 			if isReader {
-				cands = append(cands, preCand{i, true})
+				cands = append(cands, preCand{i, true, false}, preCand{i, true, true})
 			}
 		}
 	}
@@ -179,6 +182,9 @@ func (c *Ctx) paramPreconds(fn *ssa.Function) []lin.Cons {
 					break
 				}
 				goal = lin.Ge(ln, arg, "")
+				if pc.strict {
+					goal = lin.Gt(ln, arg, "")
+				}
 			} else {
 				goal = lin.Ge(arg, lin.Const(0), "")
 			}
